@@ -8,14 +8,23 @@ d = pathlib.Path(sys.argv[1]); name = sys.argv[2]
 meta = json.load(open(d / "meta.json"))
 conf = json.load(open(d / "confirm.json")) if (d / "confirm.json").exists() else None
 props = sys.argv[3:] or [meta["property"]]
-if subprocess.run(["git", "-C", "/repo", "diff", "--quiet"]).returncode != 0:
-    sys.exit("repo dirty")
-if subprocess.run(["git", "-C", "/repo", "apply", str(d / "patch.diff")]).returncode != 0:
-    sys.exit("patch does not apply")
+# Run against a scratch worktree of /repo's HEAD with the patch applied (VERIF_REPO), so that other work going on
+# against /repo is not disturbed.  Equivalent to `git -C /repo apply` + check + `git -C /repo checkout -- .`
+# (tools/seedtest.sh does exactly that on /repo itself).
+import os, tempfile
+wt = f"/tmp/seedrun/{name}"
+subprocess.run(["git", "-C", "/repo", "worktree", "prune"])
+subprocess.run(["rm", "-rf", wt])
+os.makedirs("/tmp/seedrun", exist_ok=True)
+if subprocess.run(["git", "-C", "/repo", "worktree", "add", "-q", "--detach", wt, "HEAD"]).returncode != 0:
+    sys.exit("cannot create scratch worktree")
 results = []
 try:
+    if subprocess.run(["git", "-C", wt, "apply", str(d / "patch.diff")]).returncode != 0:
+        sys.exit("patch does not apply")
+    env = dict(os.environ, VERIF_REPO=wt)
     for p in props:
-        r = subprocess.run(["./check", p, "quick"], cwd=V, capture_output=True, text=True)
+        r = subprocess.run(["./check", p, "quick"], cwd=V, capture_output=True, text=True, env=env)
         vio = [l for l in r.stdout.splitlines() if l.startswith("VIOLATION")]
         what = None
         if vio:
@@ -26,7 +35,9 @@ try:
         results.append({"check": f"./check {p} quick", "rc": r.returncode, "violation_line": vio[0] if vio else None, "finding": what,
                         "summary": r.stdout.strip().splitlines()[-1] if r.stdout.strip() else ""})
 finally:
-    subprocess.run(["git", "-C", "/repo", "checkout", "--", "."])
+    subprocess.run(["git", "-C", "/repo", "worktree", "remove", "--force", wt])
+    # the Gen files were regenerated from the patched tree: restore them from /repo
+    subprocess.run(["/venv/bin/python", str(V / "harness/pv/gen_all.py")], capture_output=True)
 out = V / "seeded" / name
 out.mkdir(parents=True, exist_ok=True)
 shutil.copy(d / "patch.diff", out / "patch.diff"); shutil.copy(d / "demo.py", out / "demo.py")
